@@ -644,3 +644,111 @@ def rule_shape_needs_rank(ctx):
                 ctx.violated("SHAPE0", key, f.where(line), "`%s` is read without anything that implies the variable has a dimension: for a rank-0 data set `shape` is NULL" % render(x)[:30])
     ctx.floor("SHAPE0", 3, n, "(reads of var->shape[k] in the public SD functions)")
     return n
+
+
+class _FillBuf(PathAnalysis):
+    """user = (buffer that last received data, frozenset of (alias, buffer))"""
+    TEMPS = ("tBuf", "tValues")
+
+    def __init__(self, prog):
+        super().__init__(prog)
+        self.sites = {}
+
+    def init_user(self, func):
+        return (None, frozenset())
+
+    def on_stmt(self, func, bid, idx, stmt, env, user):
+        last, al = user
+        al = dict(al)
+        for x in walk(stmt["e"]):
+            if x[0] == "call":
+                if x[1] in ("HDmemfill", "NC_arrayfill", "H4_NC_arrayfill") and x[3] and base_var(x[3][0]) in self.TEMPS:
+                    last = base_var(x[3][0])
+                elif x[1] == "DFKconvert" and len(x[3]) >= 2 and base_var(x[3][1]) in self.TEMPS:
+                    last = base_var(x[3][1])
+                elif x[1] == "Hwrite" and len(x[3]) >= 3:
+                    b = base_var(x[3][2])
+                    b = al.get(b, b)
+                    if b in self.TEMPS:
+                        k = (x[5], x[6])
+                        ok = (b == last)
+                        self.sites[k] = self.sites.get(k, True) and ok
+            elif x[0] == "asg" and x[1] == "=" and kind(strip(x[2])) == "var":
+                r = base_var(x[3])
+                v = strip(x[2])[1]
+                if r in self.TEMPS:
+                    al[v] = r
+                else:
+                    al.pop(v, None)
+        return (last, frozenset(al.items()))
+
+
+def rule_written_buffer_is_filled(ctx):
+    """FILLBUF (C03): hdf_xdr_NCvdata fills the gaps before and after a first write with the fill value.  It prepares the pattern in
+    one temporary buffer and, when the stored byte order differs from the host's, converts it into a second one.  The buffer
+    handed to Hwrite must on every path be the one that received the pattern last — the conversion's destination when a
+    conversion ran, the filled buffer itself otherwise.  Writing the other buffer stores zeros or stale bytes as 'fill' for
+    native and little-endian types."""
+    prog = ctx.prog
+    f = prog.func("hdf_xdr_NCvdata")
+    if f is None:
+        ctx.unrecognised("FILLBUF", "FILLBUF:hdf_xdr_NCvdata", "-", "hdf_xdr_NCvdata not found")
+        return 0
+    a = _FillBuf(prog)
+    a.fails = fail_values(f, prog)
+    a.run(f)
+    n = 0
+    for k, ok in sorted(a.sites.items()):
+        n += 1
+        key = "FILLBUF:hdf_xdr_NCvdata#%d" % n
+        if ok:
+            ctx.holds("FILLBUF", key, f.where(k[0]), "the temporary buffer written is the one that was filled/converted last on every path", nontrivial=True)
+        else:
+            ctx.violated("FILLBUF", key, f.where(k[0]), "on some path the temporary buffer handed to Hwrite is not the one that last received the fill pattern (the other buffer was filled, "
+                         "or no conversion ran into this one): zeros or stale bytes are stored as fill values")
+    ctx.floor("FILLBUF", 2, n, "(writes of the temporary fill buffers)")
+    return n
+
+
+def rule_handle_numrecs_guarded(ctx):
+    """UNLIMSIZE2 (C03, C10, C15): in the SD interface (mfsd.c) every read of the file-wide record count `handle->numrecs` sits on
+    the not-an-HDF-file side of a `file_type` test.  For HDF files the count of the variable at hand (`var->numrecs`) is the one
+    that is true of that variable; the file-wide count is the maximum over all record variables."""
+    from .codec import ast_walk
+    from .facts import int_name
+    prog = ctx.prog
+    n = 0
+    for f in prog.lib_funcs():
+        if not f.rel.endswith("mfsd.c"):
+            continue
+        sites = []
+
+        def vis(nn, st):
+            exprs = [nn[1]] if nn[0] in ("s", "if", "while", "switch") else []
+            for e in exprs:
+                for y in walk(e, True):
+                    if y[0] == "mem" and y[2] == "numrecs" and y[3] == "NC":
+                        ok = False
+                        chain = st + [nn]
+                        for a, child in zip(chain, chain[1:]):
+                            if a[0] != "if":
+                                continue
+                            ac = strip(a[1])
+                            if kind(ac) == "bin" and ac[1] in ("==", "!=") and any(z[0] == "mem" and z[2] == "file_type" for z in walk(ac, True)) and int_name(ac[3]) == "HDF_FILE":
+                                in_then = child is a[2]
+                                if (ac[1] == "==" and not in_then) or (ac[1] == "!=" and in_then):
+                                    ok = True
+                        sites.append((nn, ok))
+            return True
+        ast_walk(f.raw.get("ast"), vis, [])
+        for k, (nn, ok) in enumerate(sites):
+            n += 1
+            key = "UNLIMSIZE2:%s#%d" % (f.name, k + 1)
+            line = nn[-3] if isinstance(nn[-3], int) else f.line
+            if ok:
+                ctx.holds("UNLIMSIZE2", key, f.where(line), "handle->numrecs is read on the netCDF side of a file_type test", nontrivial=True)
+            else:
+                ctx.violated("UNLIMSIZE2", key, f.where(line), "handle->numrecs (the file-wide record count) is read where the file may be an HDF file: a variable or dimension scale is given the "
+                             "length of the longest record variable in the file")
+    ctx.floor("UNLIMSIZE2", 3, n, "(reads of handle->numrecs in mfsd.c)")
+    return n
